@@ -284,8 +284,9 @@ func propC07(c *Ctx) {
 	r.nontrivial("identity")
 	// default calls: every language and count; the source must stay crypto/rand.Reader afterwards
 	seen := map[string]bool{}
+	windows := map[string]string{}
 	ones, total := 0, 0
-	reps := 20
+	reps := 40
 	if !c.quick {
 		reps = 400
 	}
@@ -313,6 +314,16 @@ func propC07(c *Ctx) {
 						}
 					}
 					total += 8 * len(e)
+					for off := 0; off+8 <= len(e); off++ {
+						w := string(e[off : off+8])
+						if prevOff, dup := windows[w]; dup {
+							r.violate(Violation{Kind: "property", Class: "default-call", Op: fmt.Sprintf("NewMnemonic(%d,%s) #%d", n, langNames[li], len(seen)), Impl: hx(e),
+								Detail: fmt.Sprintf("8 entropy bytes at offset %d already appeared in an earlier default mnemonic (%s): entropy is being reused", off, prevOff)})
+							windows = map[string]string{} // report once
+							break
+						}
+						windows[w] = fmt.Sprintf("#%d+%d", len(seen), off)
+					}
 					// tail of the entropy must not be constant zero (a buffer only partly filled from the source)
 					if len(e) >= 20 {
 						z := true
@@ -339,12 +350,24 @@ func propC07(c *Ctx) {
 			break
 		}
 	}
+	// no two default mnemonics may share an 8-byte stretch of entropy (a prefetch buffer that is
+	// re-served, or entropy reused across calls, shows as shared substrings long before whole
+	// mnemonics repeat)
+	if len(windows) > 0 {
+		r.note("default output: %d distinct 8-byte entropy windows, no repeats required", len(windows))
+	}
 	if total > 0 {
 		frac := float64(ones) / float64(total)
 		r.note("default output: %d mnemonics pairwise distinct, fraction of one-bits %.4f over %d bits", len(seen), frac, total)
 		if frac < 0.47 || frac > 0.53 {
 			r.violate(Violation{Kind: "property", Class: "default-call", Op: "bit balance", Impl: fmt.Sprintf("%.4f", frac), Detail: "default output is grossly unbalanced"})
 		}
+	}
+	// a source that keeps failing with a "temporary" error must produce an error, never a mnemonic of
+	// whatever is in the buffer
+	for _, n := range wordCounts {
+		c.newm("scripted-source:temporary-errors", n, int64(langVals[int(n)%10]), strings.Repeat("_:o1011,", 8)+"_:o1011")
+		c.newm("scripted-source:temporary-errors", n, int64(langVals[int(n)%10]), hx(c.randBytes(7))+":-,"+strings.Repeat("_:o1004,", 6)+"_:eof")
 	}
 	// function of the source's bytes only
 	for li := range langVals {
